@@ -32,7 +32,8 @@ ASSUMPTIONS = ['Handle.__call__ returns the cached instance until clear() '
 
 class _D(Domain):
     def resolve_call(self, st, call, walker):
-        return None
+        # private helpers extracted from the analysed code are followed
+        return walker.resolve_helper(st, call)
 
     def resolve_setter(self, st, target, walker):
         return None
@@ -304,7 +305,7 @@ def same_instance(program, rep, switch_fn, spaths):
                     continue
                 t = norm(e.sym.node.func)
                 if t == f'{p[1]}.clear':
-                    found.setdefault(('direct', norm(e.node)), (
+                    found.setdefault(('direct', norm(e.sym.node)), (
                         site, e.node,
                         'the target handle is cleared by the loop after '
                         'switch() loaded it and queued on_switch_in on that '
@@ -316,7 +317,7 @@ def same_instance(program, rep, switch_fn, spaths):
                          'loop_path': sorted(
                              f'{k}={v}' for k, v in conds.items())}))
                 elif t == 'self._current_world_handle.clear':
-                    found.setdefault(('alias', norm(e.node)), (
+                    found.setdefault(('alias', norm(e.sym.node)), (
                         site, e.node,
                         'with clear_current=True the current handle is '
                         'cleared after on_switch_in was queued; when the '
@@ -328,6 +329,11 @@ def same_instance(program, rep, switch_fn, spaths):
               'combinations', n_combo, 2)
     for key, v in sorted(found.items()):
         st, node, why = v[0], v[1], v[2]
+        if key[0] in ('alias', 'direct'):
+            # the construct is named by its canonical (alias-resolved) text
+            ln = getattr(node, 'lineno', None)
+            node = ast.parse(key[1], mode='eval').body
+            node.lineno = ln
         rep.bad('C13.same-instance', st, node, why,
                 detail=v[3] if len(v) > 3 else None,
                 line=getattr(node, 'lineno', None))
